@@ -44,7 +44,7 @@ Definition kl (pre : list ains) (g : option label) : list aline :=
   map AInstr pre ++ match g with Some L => goto L | None => [] end.
 (* instructions that neither halt nor jump *)
 Definition simple (i : ains) : bool :=
-  match i with AJump _ | AHaltI | AHc _ _ _ | ALbs _ _ | AYield _ => false | _ => true end.
+  match i with AJump _ | AHaltI | AHc _ _ _ | ALbs _ _ | AYield _ | ASbs _ _ => false | _ => true end.
 
 Lemma last2_app2 {A} (x : list A) (a b : A) : last2 (x ++ [a; b]) = [a; b].
 Proof.
@@ -198,7 +198,8 @@ Proof.
     inversion L; subst C st'; clear L.
     assert (Nm : it <> be) by (inversion A1; inversion A2; subst; intro X; inversion X).
     split; [eapply st_le_trans; eauto|].
-    defl. rewrite Nt, Nf.
+    assert (Ld : forall r0', deflabels (load_bool E R1 j :: r0') = deflabels r0') by (intros; destruct j; reflexivity).
+    rewrite Ld. defl. rewrite Nt, Nf.
     assert (Bi : between st st2 it) by (eapply between_weaken; [| |exact B1]; [intros n; lia | exact M2]).
     assert (Bb : between st st2 be) by (eapply between_weaken; [| |exact B2]; [exact M1 | intros n; lia]).
     destruct (ends_goto kf); cbn [deflabels app goto]; split.
@@ -442,7 +443,8 @@ Fixpoint sval (m : mem) (o : iopd) : Z :=
   | OUn UPos x => sval m x
   | OGlob g => sgn (lw m (a_glob R g))
   end.
-Definition bval (m : mem) (j : nat) : Z := lb m (FP m - bool_off E j).
+Definition bval (m : mem) (v : bloc) : Z :=
+  match v with BLocal j => lb m (FP m - bool_off E j) | BGlobal h => lb m (a_bglob R h) end.
 Fixpoint beval (m : mem) (e : bexpr) : bool :=
   match e with
   | BLit b => b
@@ -516,7 +518,7 @@ Fixpoint run_mem (e : bexpr) (m : mem) : mem :=
   | BOr e1 e2 => let m1 := run_mem e1 m in if beval m e1 then m1 else run_mem e2 m1
   end.
 (* the same, as an explicit trace of evaluated atoms *)
-Inductive atom := AtCmp (a b : iopd) | AtVar (j : nat).
+Inductive atom := AtCmp (a b : iopd) | AtVar (j : bloc).
 Fixpoint trace (m : mem) (e : bexpr) : list atom :=
   match e with
   | BLit _ => []
@@ -583,10 +585,16 @@ Definition HI (m : mem) : Z := FP m - stack_top E.
 Definition layout_ok (m : mem) : Prop := regs_ok m /\ room_ok (stack_top E) m.
 (* every local in bounds and above the stack top; every literal a word; room for the temporaries
    of every comparison *)
+(* the byte of a bool variable: a frame slot, or a byte global away from the registers and the stack area *)
+Definition bslot_ok (hi : Z) (m : mem) (v : bloc) : Prop :=
+  match v with
+  | BLocal j => slot_ok hi m (bool_off E j) 1
+  | BGlobal h => 0 <= a_bglob R h /\ inb m (a_bglob R h) 1 = true /\ dj hi (a_bglob R h) 1 /\ a_bglob R h < W
+  end.
 Fixpoint vars_ok (m : mem) (e : bexpr) : Prop :=
   match e with
   | BLit _ => True
-  | BVar j => slot_ok (HI m) m (bool_off E j) 1
+  | BVar j => bslot_ok (HI m) m j
   | BCmp _ a b => oexp_ok (HI m) m a /\ oexp_ok (HI m) m b /\ Z.of_nat (temps_cmp a b) * w <= HI m - lo
   | BNot e1 => vars_ok m e1
   | BAnd e1 e2 | BOr e1 e2 => vars_ok m e1 /\ vars_ok m e2
@@ -702,9 +710,16 @@ Proof.
   - apply (sgn_wrap_small w Hw1); exact O.
   - apply (sgn_wrap_small w Hw1). apply (sval_range hi); assumption.
 Qed.
-Lemma bval_agree hi m m' j : regs_ok m -> agree hi m m' -> slot_ok hi m (bool_off E j) 1 -> bval m' j = bval m j.
+Lemma bval_agree hi m m' j : regs_ok m -> agree hi m m' -> bslot_ok hi m j -> bval m' j = bval m j.
 Proof.
-  intros L A [H1 [H2 [H3 H4]]]. unfold bval. rewrite (FP_agree hi m m' L A). apply (agree_lb hi); assumption.
+  intros L A. destruct j as [j|h]; cbn [bslot_ok bval].
+  - intros [H1 [H2 [H3 H4]]]. rewrite (FP_agree hi m m' L A). apply (agree_lb hi); assumption.
+  - intros [H1 [H2 [H3 _]]]. apply (agree_lb hi); assumption.
+Qed.
+Lemma bslot_ok_agree hi hi' m m' j : regs_ok m -> agree hi' m m' -> bslot_ok hi m j -> bslot_ok hi m' j.
+Proof.
+  intros L A. destruct j as [j|h]; cbn [bslot_ok]; [apply (slot_ok_agree hi hi'); assumption|].
+  rewrite (agree_inb hi' m m' _ _ A). tauto.
 Qed.
 Lemma HI_agree hi m m' : regs_ok m -> agree hi m m' -> HI m' = HI m.
 Proof. intros L A. unfold HI. now rewrite (FP_agree hi m m' L A). Qed.
@@ -714,7 +729,7 @@ Lemma vars_ok_agree m m' e : regs_ok m -> agree (HI m) m m' -> vars_ok m e -> va
 Proof.
   intros L A. pose proof (HI_agree _ m m' L A) as EH.
   induction e as [b|j|op a b|e IH|e1 IH1 e2 IH2|e1 IH1 e2 IH2]; cbn [vars_ok]; try tauto; rewrite EH.
-  - apply (slot_ok_agree (HI m) (HI m)); assumption.
+  - apply (bslot_ok_agree (HI m) (HI m)); assumption.
   - intros [Ha [Hb Hc]]. repeat split; try assumption; apply (oexp_ok_agree (HI m) (HI m) m m'); assumption.
 Qed.
 Lemma beval_agree m m' e : regs_ok m -> agree (HI m) m m' -> vars_ok m e -> beval m' e = beval m e.
@@ -828,6 +843,33 @@ Proof.
   intros C A B I J. unfold Machine.act; cbn [pc]; rewrite C; cbn [exec].
   rewrite !val_oval; cbn [mm]; rewrite A, B. unfold load; cbn [mm]; rewrite I.
   unfold setdest; cbn [mm]; rewrite J. reflexivity.
+Qed.
+
+Lemma act_lbs p m d a x : code p = Some (ILoad WByte SState (St d) a) -> oval m a = Some x ->
+  inb m x 1 = true -> inb m d w = true ->
+  act (mk p m) = ANext (mk (p + 1) (sw m d (lb m x))) None.
+Proof.
+  intros C A I J. unfold Machine.act; cbn [pc]; rewrite C; cbn [Machine.exec]. rewrite val_oval; cbn [mm]; rewrite A.
+  unfold load; cbn [mm]; rewrite I. unfold setdest; cbn [mm]; rewrite J. reflexivity.
+Qed.
+(* the load of a bool variable: lbso from the frame, lbs from a global *)
+Lemma load_bool_instr r v : exists i, load_bool E r v = AInstr i.
+Proof. destruct v; eexists; reflexivity. Qed.
+Lemma bval_range m v : wf_mem m -> 0 <= bval m v < 256.
+Proof. intros Wf. destruct v; cbn [bval]; apply Wf. Qed.
+Lemma load_bool_act p m hi r v i : r = R0 \/ r = R1 -> regs_ok m -> bslot_ok hi m v -> load_bool E r v = AInstr i ->
+  code p = Some (res_ins R lab i) -> act (mk p m) = ANext (mk (p + 1) (sw m (ra r) (bval m v))) None.
+Proof.
+  intros Hr L V Ei C.
+  assert (Ir : inb m (ra r) w = true) by (destruct L, Hr; subst r; cbn [regaddr]; assumption).
+  destruct v as [j|h]; cbn [load_bool bslot_ok bval] in *; inversion Ei; subst i; cbn [res_ins res_sym regaddr] in C.
+  - destruct V as [V1 [V2 [V3 V4]]].
+    pose proof (act_lbso p m (ra r) (St fp) (Imm (- bool_off E j)) (FP m) (wrap (- bool_off E j)) C
+                  (oval_st w cmem m fp (lo_if m L)) (oval_imm w cmem m _)) as A.
+    rewrite (frame_addr m _ L V1) in A. exact (A V3 Ir).
+  - destruct V as [V1 [V2 [V3 V4]]].
+    apply (act_lbs p m (ra r) (Imm (a_bglob R h)) (a_bglob R h) C); [|exact V2 | exact Ir].
+    rewrite oval_imm. f_equal. apply (wrap_small w). unfold inrange. lia.
 Qed.
 
 (* ---------- straight-line continuation prefixes ---------- *)
@@ -1141,7 +1183,7 @@ Proof.
   - split; [exact A5|]. split; [reflexivity|]. intros p _. replace (p + 0) with p by lia. apply runs_refl.
 Qed.
 Lemma reg_eqb_refl r : reg_eqb r r = true.
-Proof. destruct r; try reflexivity. apply Nat.eqb_refl. Qed.
+Proof. destruct r; try reflexivity; apply Nat.eqb_refl. Qed.
 
 Ltac szn := repeat progress (rewrite ?size_app; cbn [size goto]).
 Ltac szn_in H := repeat progress (rewrite ?size_app in H; cbn [size goto] in H).
@@ -1399,25 +1441,24 @@ Proof.
     cbn [lower_branch] in L.
     destruct (add_label LIsTrue st) as [it st1]. destruct (add_label LBoolEnd st1) as [be st2].
     inversion L; subst C st'; clear L.
+    destruct (load_bool_instr R1 j) as [ld Eld]. rewrite Eld in P |- *.
     cbn [app plc] in P. destruct P as [Cl [Cj [Cc P]]].
     apply placed_app in P. destruct P as [Pkf P].
     apply placed_app in P. destruct P as [Pgo P].
     cbn [app plc] in P. destruct P as [Lit [Cc' P]].
     apply placed_app in P. destruct P as [Pkt Pend].
-    cbn [res_ins res_sym regaddr] in Cl, Cj, Cc, Cc'.
+    cbn [res_ins res_sym regaddr] in Cj, Cc, Cc'.
     destruct Lo as [Lo Ro].
-    cbn [vars_ok] in V. destruct V as [V1 [V2 [V3 V4]]].
-    cbn [run_mem beval] in Rs |- *. unfold bval in *.
-    set (v := lb m (FP m - bool_off E j)) in *.
+    cbn [vars_ok] in V.
+    cbn [run_mem beval] in Rs |- *.
+    set (v := bval m j) in *.
     set (m1 := sw m r1 v) in *.
     (* the load *)
-    pose proof (act_lbso p m r1 (St fp) (Imm (- bool_off E j)) (FP m) (wrap (- bool_off E j)) Cl
-                  (oval_st w cmem m fp (lo_if m Lo)) (oval_imm w cmem m _)) as A.
-    rewrite (frame_addr m _ Lo V1) in A. specialize (A V3 (lo_i1 m Lo)). fold v m1 in A.
+    pose proof (load_bool_act p m (HI m) R1 j ld (or_intror eq_refl) Lo V Eld Cl) as A. cbn [regaddr] in A. fold v m1 in A.
     eapply runs_tau; [exact A|].
     assert (Ov : oval m1 (St r1) = Some v).
     { unfold m1. rewrite (oval_st_sw_same w Hw cmem m _ _ (lo_r1 m Lo) (lo_i1 m Lo)). f_equal.
-      apply (wrap_small w). pose proof (lo_wf m Lo (FP m - bool_off E j)) as Hb. fold (lb m (FP m - bool_off E j)) in Hb.
+      apply (wrap_small w). pose proof (bval_range m j (lo_wf m Lo)) as Hb.
       fold v in Hb. pose proof (W_ge w Hw1). unfold inrange. lia. }
     rewrite <- Lit in Cc'.
     pose proof (branch_bool_idiom w Hw code cmem (p + 1) m1 (Imm (lab it)) (lab it) (St r1) v Cj Cc (oval_lab m1 it) Cc' Ov) as Br.
@@ -1633,11 +1674,10 @@ Proof.
     split; [apply runs_refl|]. split; [apply agree_refl|]. cbn [res_sym]. rewrite oval_imm. f_equal.
     destruct b; apply (wrap_b2z true) || apply (wrap_b2z false).
   - cbn [eval_bool_value] in Ev. inversion Ev; subst; clear Ev.
-    cbn [plc res_ins res_sym regaddr] in P. destruct P as [Cl _].
-    destruct Lo as [Lo Ro]. cbn [vars_ok] in V. destruct V as [V1 [V2 [V3 V4]]].
-    pose proof (act_lbso p m r1 (St fp) (Imm (- bool_off E j)) (FP m) (wrap (- bool_off E j)) Cl
-                  (oval_st w cmem m fp (lo_if m Lo)) (oval_imm w cmem m _)) as A.
-    rewrite (frame_addr m _ Lo V1) in A. specialize (A V3 (lo_i1 m Lo)). fold (bval m j) in A.
+    destruct (load_bool_instr R1 j) as [ld Eld]. rewrite Eld in P |- *.
+    cbn [plc] in P. destruct P as [Cl _].
+    destruct Lo as [Lo Ro]. cbn [vars_ok] in V.
+    pose proof (load_bool_act p m (HI m) R1 j ld (or_intror eq_refl) Lo V Eld Cl) as A. cbn [regaddr] in A.
     exists (sw m r1 (bval m j)). cbn [size]. replace (p + (1 + 0)) with (p + 1) by lia.
     split; [apply (runs_next act _ _ None A)|]. split; [apply agree_sw; [apply (lo_r1 m Lo) | auto]|].
     cbn [res_sym regaddr beval]. rewrite (oval_st_sw_same w Hw cmem m _ _ (lo_r1 m Lo) (lo_i1 m Lo)). f_equal.
@@ -1886,7 +1926,7 @@ Proof.
   induction e as [b|j|op a b|e IH|e1 IH1 e2 IH2|e1 IH1 e2 IH2]; intros r st c v st' Ev; cbn [eval_bool_value] in Ev;
     try (apply (Gen _ r st c v st' Ev)).
   - inversion Ev; subst. split; [apply st_le_refl|]. split; constructor.
-  - inversion Ev; subst. split; [apply st_le_refl|]. split; constructor.
+  - inversion Ev; subst. split; [apply st_le_refl|]. destruct j; split; constructor.
   - destruct (eval_bool_value E r e st) as [[c0 v0] st0] eqn:E0. inversion Ev; subst.
     destruct (IH r st c0 v0 st' E0) as [M [F D]]. split; [exact M|]. defl. rewrite app_nil_r. split; assumption.
 Qed.
@@ -2303,8 +2343,8 @@ Fixpoint store_offs (l : list aline) : list Z :=
 Lemma store_offs_app a b : store_offs (a ++ b) = store_offs a ++ store_offs b.
 Proof.
   induction a as [|x r IH]; [reflexivity|]. cbn [app store_offs].
-  destruct x as [l|[t| |c a0 b0|d b0 o|d b0 o|op d a0 b0|d a0|v|d v|b0 o v|b0 o v]]; try exact IH.
-  destruct b0 as [z|[]|l|c|r'|x0]; try exact IH; destruct o as [z|r0|l|c|r'|x0]; try exact IH. cbn [app]. now rewrite IH.
+  destruct x as [l|[t| |c a0 b0|d b0 o|d b0 o|op d a0 b0|d a0|v|d v|b0 o v|b0 o v|a0 v]]; try exact IH.
+  destruct b0 as [z|[| | | | | |?|?]|l|c|r'|x0]; try exact IH; destruct o as [z|r0|l|c|r'|x0]; try exact IH. cbn [app]. now rewrite IH.
 Qed.
 Lemma pop_value_stores r b : store_offs (fst (pop_value r b)) = [].
 Proof. destruct b; reflexivity. Qed.
@@ -2414,7 +2454,7 @@ Definition ex_env : env := with_top (is_you_env 2 3) 10.
 (* a + 1 < b * c and not (p or c < -c) *)
 Definition ex_e : bexpr :=
   BAnd (BCmp SLt (OArith SAdd (OVar 0) (OLit 1)) (OArith SMul (OVar 1) (OVar 2)))
-       (BNot (BOr (BVar 0) (BCmp SLt (OVar 2) (OUn UNeg (OVar 2))))).
+       (BNot (BOr (BVar (BLocal 0)) (BCmp SLt (OVar 2) (OUn UNeg (OVar 2))))).
 Definition ex_T : label := (LElse, 0%nat).
 Definition ex_F : label := (LEndElse, 0%nat).
 Definition ex_st : lstate := fun _ => 1%nat.
